@@ -314,6 +314,17 @@ spec:
   - {number: 9000, name: bar}
   endpoints: [{address: 10.2.13.1}]
 `},
+	{name: "se-ipv6-vip-two-http-ports", kind: "SE", core: true, shape: "ipv6-vip", yaml: hdrSE + `
+metadata: {name: v6}
+spec:
+  hosts: [v6.example.com]
+  addresses: ["2001:db8::10"]
+  resolution: STATIC
+  ports:
+  - {number: 8085, name: http-a, protocol: HTTP}
+  - {number: 8086, name: http-b, protocol: HTTP}
+  endpoints: [{address: 10.2.14.1}]
+`},
 	{name: "se-endpoint-on-proxy", kind: "SE", core: true, yaml: hdrSE + `
 metadata: {name: k}
 spec:
